@@ -35,6 +35,10 @@ func mkClassifier() *classifier.Classifier {
 func renderResults(b *ClassifierBackend) []string {
 	var out []string
 	for _, r := range b.GetResults() {
+		if r == nil {
+			out = append(out, "<nil entry in the results>")
+			continue
+		}
 		out = append(out, fmt.Sprintf("%s %s/%s/%s conf=%v lines=%d-%d", filepath.Base(r.Filename), r.MatchType, r.Name, r.Variant, r.Confidence, r.StartLine, r.EndLine))
 	}
 	sort.Strings(out)
